@@ -21,6 +21,20 @@ Fixpoint run_thr (sign I next : T) (xs : list T) : list (T * T) * T :=
               let '(out, fin) := run_thr sign I next' r in
               ((if snap then [(x, next)] else []) ++ out, fin)
   end.
+
+(* running the heartbeats of a prefix and then of the rest = running them all: the only state carried over is the
+   threshold.  Holds for every arithmetic (reals, binary64) and both directions of time. *)
+Lemma run_thr_app : forall sign I a b next,
+  run_thr sign I next (a ++ b) =
+  (fst (run_thr sign I next a) ++ fst (run_thr sign I (snd (run_thr sign I next a)) b),
+   snd (run_thr sign I (snd (run_thr sign I next a)) b)).
+Proof.
+  intros sign I. induction a as [|x r IH]; intros b next.
+  - cbn [app run_thr fst snd]. destruct (run_thr sign I next b). reflexivity.
+  - cbn [app run_thr]. destruct (hb_thr sign I next x) as [snap next'].
+    rewrite IH. destruct (run_thr sign I next' r) as [o1 n1]. cbn [fst snd].
+    destruct (run_thr sign I n1 b) as [o2 n2]. cbn [fst snd]. rewrite app_assoc. reflexivity.
+Qed.
 End G.
 
 Open Scope R_scope.
